@@ -48,6 +48,7 @@ type Param struct {
 }
 
 type Sig struct {
+	Group    bool // render consecutive same-typed named parameters / results as one grouped declaration
 	Params   []Param
 	Results  []Param
 	Variadic bool
@@ -106,10 +107,17 @@ func (s *Sig) render(q Qual, withNames bool) string {
 		if i > 0 {
 			b.WriteString(", ")
 		}
+		last := s.Variadic && i == len(s.Params)-1
+		// grouped declaration `a, b T`: go/types then hands out ONE type object for both
+		if s.Group && p.Name != "" && i+1 < len(s.Params) && s.Params[i+1].Name != "" && !last &&
+			!(s.Variadic && i+1 == len(s.Params)-1) && s.Params[i+1].T.Render(q) == p.T.Render(q) {
+			b.WriteString(p.Name)
+			continue
+		}
 		if p.Name != "" {
 			b.WriteString(p.Name + " ")
 		}
-		if s.Variadic && i == len(s.Params)-1 {
+		if last {
 			b.WriteString("..." + p.T.Elem.Render(q))
 		} else {
 			b.WriteString(p.T.Render(q))
@@ -132,6 +140,10 @@ func (s *Sig) render(q Qual, withNames bool) string {
 	for i, r := range s.Results {
 		if i > 0 {
 			b.WriteString(", ")
+		}
+		if s.Group && r.Name != "" && i+1 < len(s.Results) && s.Results[i+1].Name != "" && s.Results[i+1].T.Render(q) == r.T.Render(q) {
+			b.WriteString(r.Name)
+			continue
 		}
 		if r.Name != "" {
 			b.WriteString(r.Name + " ")
